@@ -21,10 +21,19 @@ def run(ctx):
     nb = 0
     keys = ["ind", "sep", "comma", "brk", "opsp", "trail", "cmt", "cmtsp", "own", "blank", "eol", "final"]
     dom = {k: sorted({c[k] for c in single}, key=str) for k in keys}
+    # object-file style sources: bracket directives directly followed by labels, GLOBAL lists (naskfunc.nas layout)
+    objstyle = [[{"k": "cfg", "mn": "FORMAT", "s": "WCOFF"}, {"k": "cfg", "mn": "INSTRSET", "s": '"i486p"'}, {"k": "bits", "v": 32}, {"k": "cfg", "mn": "FILE", "s": "naskfunc.nas"},
+                 {"k": "global", "names": ["_io_hlt", "_write_mem8"]}, {"k": "cfg", "mn": "SECTION", "s": ".text"},
+                 {"k": "label", "nm": "_io_hlt"}, {"k": "ins", "mn": "HLT", "ops": []}, {"k": "ins", "mn": "RET", "ops": []},
+                 {"k": "label", "nm": "_write_mem8"}, {"k": "ins", "mn": "MOV", "ops": [{"t": "r", "w": 32, "n": 1}, {"t": "m", "w": 0, "aw": 32, "b": 4, "x": -1, "sc": 1, "d": 4, "hd": 1}]},
+                 {"k": "ins", "mn": "MOV", "ops": [{"t": "r", "w": 8, "n": 0}, {"t": "m", "w": 0, "aw": 32, "b": 4, "x": -1, "sc": 1, "d": 8, "hd": 1}]},
+                 {"k": "ins", "mn": "MOV", "ops": [{"t": "m", "w": 0, "aw": 32, "b": 1, "x": -1, "sc": 1, "d": 0, "hd": 0}, {"t": "r", "w": 8, "n": 0}]}, {"k": "ins", "mn": "RET", "ops": []}],
+                [{"k": "bits", "v": 32}, {"k": "label", "nm": "start"}, {"k": "ins", "mn": "MOV", "ops": [{"t": "r", "w": 32, "n": 0}, {"t": "i", "v": 1, "sty": "d"}]},
+                 {"k": "br", "mn": "JMP", "tgt": {"t": "l", "nm": "start", "add": 0}}, {"k": "bits", "v": 16}, {"k": "label", "nm": "tail"}, {"k": "ins", "mn": "HLT", "ops": []}]]
     for bits in (16, 32):
         cases = progs.gen(ctx, 15 if quick else 120, length=14, nl=3, bits=bits)
-        for c in cases:
-            base = progs.complete(c, org=0x7c00, bits=bits)
+        allbases = [progs.complete(c, org=0x7c00, bits=bits) for c in cases] + (objstyle if bits == 32 else [])
+        for base in allbases:
             bid = R.add(base)
             nb += 1
             lays = list(single)
